@@ -572,6 +572,17 @@ func TestEveryKeywordAsName(t *testing.T) {
 	if _, err := os.Stat(os.Getenv("VERIF_EMERGE_BIN")); err != nil {
 		t.Skip("emerge binary not built")
 	}
+	// names that are no Go identifiers although they look like ones, and identifiers that need care
+	for _, name := range []string{"v²", "partⅣ", "x٣", "x½", "a·b", "Calc", "CamelCase", "ünï", "π", "x_", "_x", "a1", "日本", "a-b", "a.b", "a b", "1a", "²", "á", "́a", "x‌", "if_", "String"} {
+		for _, flag := range []string{"=", " "} {
+			c := Config{Input: "valid", OutFlag: "=", OutState: "dir", Pre: "none", NameFlag: flag, Name: name}
+			summary, err := checkConfig(c)
+			rec.Case(c.String(), true, "special_name", summary)
+			if err != nil {
+				rec.Fail(t, "config", c, "%v", err)
+			}
+		}
+	}
 	for k := token.BREAK; k <= token.VAR; k++ {
 		for _, flag := range []string{"=", " "} {
 			c := Config{Input: "valid", OutFlag: "=", OutState: "dir", Pre: "none", NameFlag: flag, Name: k.String()}
